@@ -872,6 +872,120 @@ def check_in_memory(mem: Any, label: str, src: str, cold: dict[str, Any], litera
 		res.findings.append(Finding(key='span-differs-in-memory', what=f'{lab}: {what}', replay=replay))
 
 
+def entry_texts(root: Any) -> dict[str, str]:
+	"""path → the entry's own text as the node API spells it: the token values of the entry's subtree, in source order, joined
+	by '.' (own pre-order walk over the Entry interface; the paths are built as in `check_tree`)"""
+	out: dict[str, str] = {}
+
+	def walk(e: Any, path: str) -> list[str]:
+		vals: list[str] = []
+		if e.is_empty:
+			out[path] = ''
+			return vals
+		if e.is_terminal:
+			if e.value:
+				vals.append(e.value)
+		elif e.has_child:
+			cs = e.children
+			names = [c.name for c in cs]
+			for i, c in enumerate(cs):
+				vals.extend(walk(c, f'{path}.{c.name}' if names.count(c.name) == 1 else f'{path}.{c.name}[{i}]'))
+		out[path] = '.'.join(vals)
+		return vals
+
+	walk(root, root.name)
+	return out
+
+
+DEF_TAIL = re.compile(r'(class_def|function_def)(\[\d+\])?$')
+
+
+def check_node_level(label: str, src: str, ep: Any, root: Any, recorded: dict[str, Any], rng: random.Random, limit: int, res: SearchResult, suffix: str) -> None:
+	"""The span statements at the level of NODES as the node API hands them out — the node of every (sampled) entry path and
+	the nodes its expandable properties return (`symbol`, `decorators`, `parameters`, `block`, … = what `procedural()`
+	flattens), including proxies and virtual children:
+	  * the node of an entry reports its entry's span (whose content `check_tree` examined);
+	  * a stand-in (an object of a run-time made class overriding attributes of the node it was made from) whose tokens are
+	    NOT the text of the entry it stands on (an alias published under another name; compared without dots and white
+	    space), or a node that stands on no entry at all (a virtual child), has no text of its own in the file: it reports no position — or a
+	    span whose text is exactly its tokens — and an error raised on it is reported without quotation."""
+	nodes = diskproj.nodes_of(ep)
+	texts = entry_texts(root)
+	starts = line_starts(src)
+	paths = list(recorded.keys())
+	defs = [p for p in paths if DEF_TAIL.search(p)]
+	rest = [p for p in paths if not DEF_TAIL.search(p)]
+	chosen = (defs if len(defs) <= limit else rng.sample(defs, limit)) + (rest if len(rest) <= limit else rng.sample(rest, limit))
+	seen: set[tuple[str, str]] = set()
+
+	def norm(text: str) -> str:
+		# node classes spell their tokens differently (values joined by '.', or by nothing): compare without dots and blanks
+		return re.sub(r'[.\s]+', '', text)
+
+	def is_stand_in(m: Any) -> bool:
+		# an object of a class made at run time (a local class deriving from the node's class and overriding attributes) that
+		# stands in for the node of its path; the nodes the resolver and `as_a` build are instances of module-level classes
+		return '<locals>' in type(m).__qualname__
+
+	def examine(m: Any, via: str) -> None:
+		try:
+			mp, toks = str(m.full_path), m.tokens
+		except Exception:  # noqa: BLE001 - node resolution / token text of odd nodes: C10's and C02's subject
+			res.histogram['node-unreadable'] = res.histogram.get('node-unreadable', 0) + 1
+			return
+		if (mp, toks) in seen:
+			return
+		seen.add((mp, toks))
+		replay = {'module': label, 'path': mp, 'via': via, 'tokens': toks[:200], 'source': src[:20000]}
+		try:
+			s = sm_of(m.source_map)
+		except Exception as e:  # noqa: BLE001
+			add_finding(res, label, f'node-source-map-raises:{exc_enum(e)}', f'{via}>{mp}', suffix, f'source_map of the node {via} → {mp} ({type(m).__name__}) raises {exc_enum(e)}', replay)
+			return
+		res.histogram['nodes-examined'] = res.histogram.get('nodes-examined', 0) + 1
+		own = texts.get(mp)
+		stand_in = is_stand_in(m)
+		if own is not None and stand_in and norm(toks) == norm(own) and s == (0, 0, 0, 0):
+			return  # an alias that happens to spell the original name: still a stand-in without a position of its own
+		if own is not None and (not stand_in or norm(toks) == norm(own)):
+			# the node of an entry (its class may summarise `tokens` in its own way — `n as fn` → 'fn'): the entry's span
+			if s != recorded.get(mp):
+				add_finding(res, label, 'node-span-differs-from-entry', f'{via}>{mp}', suffix, f'node {via} → {mp} ({type(m).__name__}) reports {s}, its entry {recorded.get(mp)}', replay)
+			return
+		# no own text in the file: an alias (tokens overridden) or a virtual child (no entry)
+		kind = 'alias' if own is not None else 'virtual'
+		res.histogram[f'nodes-without-own-text:{kind}'] = res.histogram.get(f'nodes-without-own-text:{kind}', 0) + 1
+		if s != (0, 0, 0, 0):
+			text = slice_of(src, starts, (s[0], s[1]), (s[2], s[3])) if None not in s else None
+			if text is None or norm(text) != norm(toks):
+				add_finding(res, label, f'node-span-not-own-text:{kind}', f'{via}>{mp}', suffix, f'node {via} → {mp} ({type(m).__name__}) has the tokens {toks[:60]!r} but reports the span {s}, which holds {None if text is None else text[:60]!r}', replay)
+			return
+		q = render_quotation(m, len(seen))
+		if isinstance(q, str) or q:
+			add_finding(res, label, 'quotation-spanless-node', f'{via}>{mp}', suffix, f'node {via} → {mp} has no span, yet the report quotes {q if isinstance(q, str) else q[1:4]}', replay)
+
+	for p in chosen:
+		try:
+			n = nodes.by(p)
+		except Exception:  # noqa: BLE001 - node resolution is C10's subject
+			continue
+		examine(n, p)
+		try:
+			keys = list(n.prop_keys())
+		except Exception:  # noqa: BLE001
+			keys = []
+		for k in keys:
+			try:
+				v = getattr(n, k)
+				ms = list(v) if isinstance(v, (list, tuple)) else [v]
+			except Exception:  # noqa: BLE001 - a property that cannot be resolved on a merely syntactic program
+				res.histogram['property-unresolvable'] = res.histogram.get('property-unresolvable', 0) + 1
+				continue
+			for m in ms:
+				if hasattr(m, 'full_path') and hasattr(m, 'source_map'):
+					examine(m, f'{p}.{k}')
+
+
 _COLD_QUOTES: dict[tuple[str, str], Any] = {}
 
 
@@ -998,8 +1112,10 @@ def search_spans(ctx: Ctx) -> tuple[SearchResult, SearchResult]:
 				exercised += 1
 			res.cases += 1
 			seen.add(hash(pr.sources[mp]))
+			spans_ok: dict[str, Any] = {}
 			try:
 				spans = check_tree(pr.labels[mp], pr.sources[mp], root, literals, res, suffix, grammar)
+				spans_ok = spans
 				if restored:
 					compare_with_cold(pr.labels[mp], pr.sources[mp], cold_spans, spans, res)
 					res.histogram['entries-compared-with-cold'] = res.histogram.get('entries-compared-with-cold', 0) + len(spans)
@@ -1008,6 +1124,12 @@ def search_spans(ctx: Ctx) -> tuple[SearchResult, SearchResult]:
 			except Exception as e:  # noqa: BLE001
 				add_finding(res, pr.labels[mp], f'span-raises:{exc_enum(e)}', 'file_input', suffix, f'reading the spans raises {exc_enum(e)}', {'module': pr.labels[mp], 'source': pr.sources[mp][:20000]})
 			sampled = check_quotations(pr, mp, ep, rng, ctx.scale(32, 60), resq, suffix, sampled if restored else None)
+			if spans_ok:
+				try:
+					with chdir(pr.cwd_for(mp)):
+						check_node_level(pr.labels[mp], pr.sources[mp], ep, root, spans_ok, rng, ctx.scale(60, 200), res, suffix)
+				except Exception as e:  # noqa: BLE001
+					add_finding(res, pr.labels[mp], f'node-level-raises:{exc_enum(e)}', 'file_input', suffix, f'examining the nodes raises {exc_enum(e)}', {'module': pr.labels[mp], 'source': pr.sources[mp][:20000]})
 			kind = pr.labels[mp].split('#')[0].split(':')[0] if mp.startswith('gen.') else 'real'
 			res.histogram[kind + suffix] = res.histogram.get(kind + suffix, 0) + 1
 		if cold_spans and (mp.startswith('gen.free') or (mp.startswith('gen.m') and int(mp[5:]) % 3 == 1)):
